@@ -272,7 +272,10 @@ pub(crate) fn read_tag(
     let mut num_strings: usize = 1;
     loop {
         // read string
-        let (inlen, outlen) = json_unescape(&input[*inposp..], &mut output[*outposp + 2..])?;
+        let outbuf = output
+            .get_mut(*outposp + 2..)
+            .ok_or_else(|| -> Error { InnerError::BufferTooSmall(*outposp + 2).into() })?;
+        let (inlen, outlen) = json_unescape(&input[*inposp..], outbuf)?;
         // write the length before it
         put(output, *outposp, (outlen as u16).to_ne_bytes().as_slice())?;
         // bump the outposp past it
@@ -318,7 +321,10 @@ pub(crate) fn read_content(
     verify_char(input, b'"', inposp)?;
 
     // Place content 4 bytes beyond tags, to reserve space for content length
-    let (inlen, outlen) = json_unescape(&input[*inposp..], &mut output[after_tags + 4..])?;
+    let outbuf = output
+        .get_mut(after_tags + 4..)
+        .ok_or_else(|| -> Error { InnerError::BufferTooSmall(after_tags + 4).into() })?;
+    let (inlen, outlen) = json_unescape(&input[*inposp..], outbuf)?;
     *inposp += inlen;
     verify_char(input, b'"', inposp)?; // pass the end quote
 
